@@ -420,7 +420,12 @@ func randMask(rng *rand.Rand) int {
 }
 
 func GenRandom(rng *rand.Rand, nframes int) *Scn {
-	sc := &Scn{Kind: "random", Mask: randMask(rng), Alt: rng.Intn(2) == 0, Cols: 1 + rng.Intn(8), Rows: 1 + rng.Intn(4)}
+	return GenRandomFor(rng, nframes, randMask(rng), rng.Intn(2) == 0)
+}
+
+// GenRandomFor generates a history for a terminal advertising exactly mask.
+func GenRandomFor(rng *rand.Rand, nframes int, mask int, alt bool) *Scn {
+	sc := &Scn{Kind: "random", Mask: mask, Alt: alt, Cols: 1 + rng.Intn(8), Rows: 1 + rng.Intn(4)}
 	cv := capsConv(sc.Mask, sc.Alt)
 	m := &sim{want: newWant(sc.Cols, sc.Rows), cols: sc.Cols, rows: sc.Rows}
 	for i := 0; i < nframes; i++ {
